@@ -5,6 +5,7 @@ import ast
 import copy
 import hashlib
 import inspect
+import json
 import os
 import subprocess
 import tempfile
@@ -129,7 +130,7 @@ class RecValue:
 
 def apply_contract(c, ip, f, args, kwargs):
     ctx = ip.ctx
-    if c.call is not None or c.assumed is None:
+    if c.call is not None or (c.result_is is None and c.returns is None):
         return NotImplemented      # contract is phrased over ghost parameters: the callee body is used instead (inlined)
     try:
         ba = inspect.signature(f).bind(*args, **kwargs)
@@ -176,7 +177,7 @@ def return_ordinals(fnode):
     return {(n.lineno, n.col_offset): i for i, n in enumerate(rets)}
 
 
-def verify_contract(c, reg, timeout_ms=QUICK_TIMEOUT_MS, max_paths=4000, want_smt=False):
+def verify_contract(c, reg, timeout_ms=QUICK_TIMEOUT_MS, max_paths=4000, want_smt=False, opaque=True, witnesses=None, refute=False, time_limit=600):
     """Returns a picklable dict describing obligations and their status."""
     t0 = time.time()
     out = {'contract': c.key, 'target': c.target, 'props': list(c.props), 'obligations': [], 'status': 'ok',
@@ -202,6 +203,9 @@ def verify_contract(c, reg, timeout_ms=QUICK_TIMEOUT_MS, max_paths=4000, want_sm
         out['status'] = 'out-of-reach'
         out['error'] = str(e)
         return out
+    reg.use_opaque = opaque
+    out['mode'] = ('opaque-specs' if opaque else 'transparent-specs') + ('-refutation-search' if refute else '')
+    out['opaque_specs'] = []
     loops_local = {k: v for k, v in api.LOOPS.items()}
     reg.loop_contracts = loops_local
     reg.bounds.update(c.bounds)
@@ -213,9 +217,14 @@ def verify_contract(c, reg, timeout_ms=QUICK_TIMEOUT_MS, max_paths=4000, want_sm
         env = {}
         for name, ty in c.params.items():
             env[name] = ty.fresh(ctx, name) if isinstance(ty, api.T) else ty
-        ctx.param_env = env
+        ctx.param_env = snapshot(env)
+        if refute:
+            for name, ty in c.params.items():
+                if isinstance(ty, api.T):
+                    ty.restrict(ctx, env[name])
         spec_ip = Interp(ctx, reg, modular=False, top=None)
         spec_ip.top_name = c.key
+        spec_ip.opaque_used = ip.opaque_used
         if c.requires is not None:
             r = call_by_name(spec_ip, c.requires, env)
             ctx.assume(truth_term(ctx, r))
@@ -292,9 +301,10 @@ def verify_contract(c, reg, timeout_ms=QUICK_TIMEOUT_MS, max_paths=4000, want_sm
         out['callee_contracts'] = sorted(set(out['callee_contracts']) | ip.called_contracts)
         out['inlined'] = sorted(set(out['inlined']) | ip.inlined)
         out['native'] = sorted(set(out['native']) | ip.native_calls)
+        out['opaque_specs'] = sorted(set(out['opaque_specs']) | ip.opaque_used)
 
     try:
-        results = explore(run_path, max_paths=max_paths)
+        results = explore(run_path, max_paths=max_paths, time_limit=time_limit)
     except Unsupported as e:
         out['status'] = 'out-of-reach'
         out['error'] = str(e)
@@ -325,7 +335,7 @@ def verify_contract(c, reg, timeout_ms=QUICK_TIMEOUT_MS, max_paths=4000, want_sm
             if dk in seen:
                 continue
             seen.add(dk)
-            discharge(ob, ctx, c, timeout_ms)
+            discharge(ob, ctx, c, timeout_ms, witnesses or {})
             a = agg.setdefault(ob.name, {'name': ob.name, 'kind': ob.kind, 'paths': 0, 'discharged': 0,
                                          'failed': [], 'unknown': 0, 'secs': 0.0, 'solvers': {}, 'known': {}})
             a['paths'] += 1
@@ -335,6 +345,8 @@ def verify_contract(c, reg, timeout_ms=QUICK_TIMEOUT_MS, max_paths=4000, want_sm
                 a['discharged'] += 1
             elif ob.status == 'unknown':
                 a['unknown'] += 1
+            elif ob.status == 'abstract-cex':
+                a['abstract'] = a.get('abstract', 0) + 1
             elif ob.status.startswith('known:'):
                 a['known'].setdefault(ob.status[6:], []).append(ob.info.get('cex'))
             else:
@@ -387,7 +399,7 @@ def _external(smt2, solver, timeout_s):
         os.unlink(path)
 
 
-def discharge(ob, ctx, c, timeout_ms):
+def discharge(ob, ctx, c, timeout_ms, witnesses=None):
     claim = ob.claim
     neg = z3.Not(claim)
     soft = ob.info.pop('soft', None) or set()
@@ -434,6 +446,21 @@ def discharge(ob, ctx, c, timeout_ms):
         return
     # sat: counterexample candidate -> concretise and replay on the real code
     model = s.model()
+    if ctx.len_terms:
+        # prefer a counterexample with short sequences / lists (readability only)
+        for bound in (2, 5, 16):
+            s.push()
+            try:
+                for lt in ctx.len_terms.values():
+                    s.add(lt <= bound)
+                s.set('timeout', 3000)
+                if s.check() == z3.sat:
+                    model = s.model()
+                    s.pop()
+                    break
+            except z3.Z3Exception:
+                pass
+            s.pop()
     cex = {'obligation': ob.name}
     try:
         conc = {k: concretize_value(model, v) for k, v in ctx.param_env.items()}
@@ -457,9 +484,33 @@ def discharge(ob, ctx, c, timeout_ms):
         r2, _, secs2 = _solve(ob.pc, z3.Not(z3.Or(claim, pt)), timeout_ms)
         ob.secs += secs2
         if r2 == z3.unsat:
-            ob.status = 'known:' + pid
-            return
+            # "property clause OR pinned deviation" is proved on this path.  The deviation is a *known finding* only
+            # if the property clause is genuinely violated: either this path's counterexample replays natively, or the
+            # witness listed in known_findings.txt still violates the contract on the real code.
+            if cex.get('confirmed') or _witness_fails(c, pid, witnesses):
+                ob.status = 'known:' + pid
+                return
+    if not cex.get('confirmed') and ctx.ufs:
+        ob.status = 'abstract-cex'      # counterexample depends on an uninterpreted function: decide transparently
+        return
     ob.status = 'failed'
+
+
+_witness_cache = {}
+
+
+def _witness_fails(c, pid, witnesses):
+    w = (witnesses or {}).get(pid)
+    if w is None:
+        return False
+    key = (c.key, pid)
+    if key not in _witness_cache:
+        try:
+            rep = replay_native(c, from_jsonable(json.loads(w) if isinstance(w, str) else w))
+            _witness_cache[key] = bool(rep.get('confirmed'))
+        except Exception:
+            _witness_cache[key] = False
+    return _witness_cache[key]
 
 
 def _jsonable(v):
@@ -507,6 +558,8 @@ def replay_native(c, conc):
             rep['confirmed'] = False
             rep['note'] = 'concretised input does not satisfy requires (abstraction artefact)'
             return rep
+    if c.prepare is not None:
+        env.update(native_by_name(c.prepare, env))
     olds = {'old_' + k: copy.deepcopy(v) for k, v in env.items()}
     if c.build is not None:
         fn, args, kwargs = native_by_name(c.build, env)
@@ -544,6 +597,12 @@ def replay_native(c, conc):
         return rep
     penv['result'] = result
     rep['observed'] = _short(_jsonable(result))
+    try:
+        changed = {k: _jsonable(v) for k, v in env.items() if not isinstance(v, (int, bytes, str, bool, float, type(None))) and v != olds.get('old_' + k)}
+        if changed:
+            rep['state_after'] = _short(changed)
+    except Exception:
+        pass
     bad = False
     for ecls, cfn in c.raises_iff.items():
         if bool(native_by_name(cfn, {k: v for k, v in penv.items() if k != 'result'})):
